@@ -142,7 +142,8 @@ def items(events, case="lower", trailing_dangling=False):
             for bname, bargs in ev.get("between", []):
                 cmd(bname, list(bargs))
             if ev.get("impldoc"):
-                out.append(("doc", [f"Doc on the implementing definition of {i}."], None))
+                out.append(("doc", list(ev["impldoc"]) if isinstance(ev["impldoc"], (list, tuple))
+                            else [f"Doc on the implementing definition of {i}."], None))
             cmd(ev.get("impl", "function"), ['"${%s}"' % mname, "self"] + list(ev.get("params", [])))
             st.append((k, i))
         elif k in ("ct_add_test", "ct_add_section"):
@@ -153,7 +154,8 @@ def items(events, case="lower", trailing_dangling=False):
             for bname, bargs in ev.get("between", []):
                 cmd(bname, list(bargs))
             if ev.get("impldoc"):
-                out.append(("doc", [f"Doc on the implementing definition of {i}."], None))
+                out.append(("doc", list(ev["impldoc"]) if isinstance(ev["impldoc"], (list, tuple))
+                            else [f"Doc on the implementing definition of {i}."], None))
             cmd(ev.get("impl", "function"), ["${%s}" % nm.strip('"${}')] + list(ev.get("params", [])))
             st.append((k, i))
         elif k == "add_test":
